@@ -204,6 +204,7 @@ pub fn worker_main(args: &[String]) {
     let mut agg = Agg::default();
     let mut last_report = std::time::Instant::now();
     let mut samples_sent = 0;
+    let mut viol_sent = 0u64;
     let mut i = start;
     while i < end {
         if status.get(2) != 0 {
@@ -240,6 +241,12 @@ pub fn worker_main(args: &[String]) {
                 let _ = writeln!(o, "{}", json!({"t":"sample", "sample": sample_of(&ep)}));
             }
             if let Some(v) = &out.violation {
+                viol_sent += 1;
+                if viol_sent > 12 {
+                    // enough explicit episodes from this worker; further ones are only counted
+                    j += 1;
+                    continue;
+                }
                 let mut o = stdout.lock();
                 let _ = writeln!(o, "{}", json!({"t":"v", "index": i, "sub": j, "violation": v, "episode": ep}));
                 let _ = o.flush();
